@@ -765,6 +765,61 @@ func (g *gen) genService(r *vlib.Rand, thorough bool, budget int) {
 
 func (g *gen) genReceive(r *vlib.Rand, thorough bool, budget int) {}
 
+// genServiceNoSideEffects: a publish rejected by ingress check k must not use up a rate-limit token (PublishBurst = 2):
+// k rejected frames of one kind from a peer, interleaved with its two accepted publishes (both must be delivered and
+// forwarded), then a third accepted-looking one (rate limited); a rejected Subscribe in between must not register anything.
+func (g *gen) genServiceNoSideEffects(r *vlib.Rand, thorough bool, budget int) {
+	ensureAccounts(3)
+	rounds := budget
+	if thorough {
+		rounds = 10 * budget
+	}
+	type rej struct {
+		name string
+		mk   func() svcEv
+	}
+	good := func() svcEv { return svcEv{K: "pub", Sid: 2, Space: 0, Topic: "a/b", Claim: 2} }
+	kinds := []rej{
+		{"bad_topic", func() svcEv { e := good(); e.Topic = "a//b"; return e }},
+		{"empty_identity", func() svcEv { e := good(); e.Claim = 0; return e }},
+		{"foreign_identity", func() svcEv { e := good(); e.Claim = 1; return e }},
+		{"malformed", func() svcEv { e := good(); e.Bad = true; return e }},
+		{"not_responsible", func() svcEv { e := good(); e.Space = 2; return e }},
+		{"not_owner", func() svcEv { e := good(); e.Topic = "acc/x/@0"; return e }},
+		{"not_member", func() svcEv { e := good(); e.Space = 1; return e }},
+		{"relayed_by_non_node", func() svcEv { e := good(); e.Rel = true; return e }},
+	}
+	for round := 0; round < rounds; round++ {
+		rr := r.Fork(uint64(round))
+		for _, kd := range kinds {
+			for variant := 0; variant < 2; variant++ {
+				c := svcCfg{MaxSpace: 100, MaxStream: 1000, Burst: 2, Resp: []int{0, 1}, Nodes: []int{3}, Accounts: 3}
+				evs := []svcEv{{K: "open", Acct: 0}, {K: "open", Acct: 1}, {K: "open", Acct: 2},
+					{K: "setmember", Space: 0, Acct: 0, B: true}, {K: "setmember", Space: 0, Acct: 1, B: true},
+					{K: "setmember", Space: 1, Acct: 0, B: true},
+					{K: "sub", Sid: 1, Space: 0, Pats: []string{">"}}, {K: "sub", Sid: 1, Space: 1, Pats: []string{">"}}}
+				nrej := func() {
+					for k := 1 + rr.Intn(3); k > 0; k-- {
+						evs = append(evs, kd.mk())
+					}
+				}
+				nrej()
+				evs = append(evs, good())
+				if variant == 1 {
+					nrej()
+					evs = append(evs, svcEv{K: "sub", Sid: 2, Space: 1, Pats: []string{"a/>"}}, // not a member of space 1: rejected
+						svcEv{K: "sub", Sid: 2, Space: 0, Pats: []string{"a//b"}}) // invalid pattern: rejected
+				}
+				evs = append(evs, good())
+				nrej()
+				evs = append(evs, good(), svcEv{K: "snap"})
+				g.w.Stat("svc.noeffect." + kd.name)
+				g.svcCase(svcHist{Cfg: c, Evs: evs})
+			}
+		}
+	}
+}
+
 func (g *gen) replayMore(d desc) {
 	switch d.Kind {
 	case "svc":
